@@ -13,6 +13,7 @@
  *                               obs ticks=<instructions executed> maxcsp=<max csp index> maxsp=<max sp index>
  *                                   csp=<csp index after> sp=<sp index after> cost=<budget> depth=<MaxCallDepth> stack=<n>
  *                                   maxtouch=<highest slot at or above <n> that was written, -1 = none>
+ *                                   cost0=<eval_cost the evaluation started with>
  *   lpc <path> <hex>          write generated LPC source to <mudlib>/<path>
  *   shape <term>              ignored (the abstract shape of the generated program, read by the model)
  *   reconf <Key> <value>      re-read the config file through init_config() with that key replaced
@@ -61,6 +62,7 @@ static int c04_ev (int n, char **tok, int quiet)
   object_t *ob = vh_obj (tok[1]);
   volatile int rc = 0;
   volatile int es = 0;
+  volatile long long cost0 = 0;	/* the budget this evaluation started with */
   char res[4096];
   svalue_t *ret;
   char *shared;
@@ -99,6 +101,7 @@ static int c04_ev (int n, char **tok, int quiet)
             copy_and_push_string (tok[i]);
         }
       eval_cost = CONFIG_INT (__MAX_EVAL_COST__);	/* as backend.c does before each task */
+      cost0 = eval_cost;
       ret = apply (shared, ob, n - 3, ORIGIN_DRIVER);
       if (!ret)
         rc = 2;
@@ -142,9 +145,9 @@ static int c04_ev (int n, char **tok, int quiet)
             touched = q - start_of_stack;
             break;
           }
-    vh_out ("obs ticks=%lld maxcsp=%ld maxsp=%ld csp=%ld sp=%ld cost=%d depth=%d stack=%d maxtouch=%ld", verif_insn_count,
+    vh_out ("obs ticks=%lld maxcsp=%ld maxsp=%ld csp=%ld sp=%ld cost=%d depth=%d stack=%d maxtouch=%ld cost0=%lld", verif_insn_count,
             verif_max_csp, verif_max_sp, (long) (csp - control_stack), (long) (sp - start_of_stack),
-            CONFIG_INT (__MAX_EVAL_COST__), CONFIG_INT (__MAX_CALL_DEPTH__), c04_stack, touched);
+            CONFIG_INT (__MAX_EVAL_COST__), CONFIG_INT (__MAX_CALL_DEPTH__), c04_stack, touched, (long long) cost0);
   }
   return 1;
 }
